@@ -336,9 +336,18 @@ pub fn run(tier: &str) -> i32 {
         }
       }
       CaseOutcome::Hang => {
-        hangs += 1;
+        // once more, alone and with a longer watchdog, to tell a hang from a process that was not scheduled
+        let again = run_sharded(&["C09".into(), "--tier".into(), tier.into(), "--one".into(), idx.to_string()], 1, 1, 15.0, None);
         let (d, _seq, form) = describe();
-        rep.violation(&format!("C09:hang:{form:?}"), json!({"case_index": idx, "tier": tier}), &format!("the access did not return within 4 s (the process had to be killed): {d}"));
+        match &again[0] {
+          CaseOutcome::Hang => {
+            hangs += 1;
+            rep.violation(&format!("C09:hang:{form:?}"), json!({"case_index": idx, "tier": tier}), &format!("the access did not return within 4 s, and not within 15 s when run alone (the process had to be killed): {d}"));
+          }
+          CaseOutcome::Crash(s) if !s.contains("MACHINERY") => rep.violation(&format!("C09:crash:{form:?}"), json!({"case_index": idx, "tier": tier}), &format!("the process died ({s}) during: {d}")),
+          CaseOutcome::Done(v) if v.get("key").is_some() => rep.violation(&format!("{}:{form:?}", v["key"].as_str().unwrap_or("C09:?")), json!({"case_index": idx, "tier": tier}), v["msg"].as_str().unwrap_or("")),
+          _ => rep.notes.push(format!("case {idx} did not return within the watchdog in its shard but did when run alone (busy machine): not reported")),
+        }
       }
       CaseOutcome::Skipped => skipped += 1,
       CaseOutcome::Crash(s) => {
